@@ -342,6 +342,16 @@ func checkC09(c *Check) {
 					cmp = true
 				}
 			}
+			// the same test through a read-only table keyed by the record type
+			for _, pos := range []bool{true, false} {
+				for _, ga := range expandTable(er, Atom{V: b, Pos: pos}) {
+					if ga.X != nil && ga.Y != nil && ga.X.K == "field" && ga.X.Name == "Type" {
+						if k, okK := ga.Y.ConstInt(); okK && k == t.CredDisp && ga.Op == "==" && ga.Pos {
+							cmp = true
+						}
+					}
+				}
+			}
 		})
 		if !cmp {
 			continue
@@ -738,6 +748,10 @@ func (t *Tracker) scansWholeQueue(fn *ssa.Function) (bool, string) {
 		}
 		for _, side := range []ssa.Value{b.X, b.Y} {
 			o := r.Of(side)
+			// table[ev.Type] for a read-only table keyed by the record type
+			if o.K == "lookup" && len(o.Sub) == 2 && o.Sub[1].K == "field" && o.Sub[1].Name == "Type" {
+				o = o.Sub[1]
+			}
 			if o.K != "field" || o.Name != "Type" {
 				continue
 			}
